@@ -6,9 +6,9 @@
 cd "$(dirname "$0")/.." || exit 2
 par=${1:-4}
 out=$(mktemp -d /tmp/allmut.XXXXXX)
-ls seeded | xargs -P "$par" -I{} sh -c "/venv/bin/python tools/trymutant.py seeded/{} > $out/{}.log 2>&1"
+ls seeded | grep -v "^_" | xargs -P "$par" -I{} sh -c "/venv/bin/python tools/trymutant.py seeded/{} > $out/{}.log 2>&1"
 bad=0
-for d in seeded/*; do
+for d in seeded/[A-Z]*; do
   n=$(basename "$d")
   line=$(grep '^{"mutant"' "$out/$n.log" | tail -1)
   det=$(printf '%s' "$line" | /venv/bin/python -c 'import json,sys; d=json.loads(sys.stdin.read() or "{}"); print("DETECTED" if d.get("detected_by") and d.get("demo_clean_rc")==0 and d.get("demo_mutated_rc") not in (0,None) else "MISSED", d.get("detected_by"), "demo clean/mutated rc", d.get("demo_clean_rc"), d.get("demo_mutated_rc"))')
